@@ -4,6 +4,7 @@
 -/
 import Lean.Data.Json
 import BiscuitModel.Model.Intern
+import BiscuitModel.Model.Limits
 open Lean
 namespace Biscuit.Codec
 
